@@ -470,6 +470,13 @@ def gen_respell(rng, n, stats, adversarial=False, only_ambig=False):
         decorate(rng, c, set())
         for _ in range(6):
             a = gen_cmd.gen_argv(rng, c, p_mutate=(0.6 if adversarial else 0.08), safe_p=(0.4 if adversarial else 0.85))
+            if rng.random() < 0.15:
+                # boundary: an attached empty value (`--opt=`, `-o=`), which must stay a value after respelling
+                eqs = [j for j, t in enumerate(a) if t.startswith(b"-") and b"=" in t and not t.startswith(b"--=")]
+                if eqs:
+                    j = eqs[rng.randrange(len(eqs))]
+                    a = a[:j] + [a[j][:a[j].index(b"=") + 1]] + a[j + 1:]
+                    stats["base line with an empty attached value"] += 1
             cur = a
             kinds = []
             want = rng.choice([1, 1, 2, 2, 3])
@@ -630,9 +637,9 @@ def nontrivial(case, impl):
 def streams(tier, rng):
     q = tier == "quick"
     out = []
-    for name, n, kw in [("respell", 2500 if q else 30000, {}),
-                        ("respell-adversarial", 800 if q else 8000, {"adversarial": True}),
-                        ("ambiguous", 500 if q else 5000, {"only_ambig": True})]:
+    for name, n, kw in [("respell", 6000 if q else 100000, {}),
+                        ("respell-adversarial", 1500 if q else 25000, {"adversarial": True}),
+                        ("ambiguous", 1000 if q else 15000, {"only_ambig": True})]:
         stats = Counter()
         cases = gen_respell(rng, n, stats, **kw)
         out.append(Stream(name, cases, oracle=oracle, area="c08", project=project, nontrivial=nontrivial,
